@@ -440,6 +440,10 @@ fn bases(thorough: bool) -> Vec<(String, Program)> {
         let mut scale = Vec::new();
         crate::stmtfam::scale_programs(thorough, &mut scale);
         for (fam, p) in scale {
+            // quick: the programs up to 65 items (the thresholds 8/9 .. 64/65); thorough: all of them
+            if !thorough && crate::stmtfam::scale_n(&fam) > 65 && !fam.contains("magnitude") {
+                continue;
+            }
             v.push((fam, without_externals(&p)));
         }
     }
